@@ -231,6 +231,12 @@ class FnTranslator:
             try:
                 guards, subst, ok = [], {}, True
                 for mv, sub in b.items():
+                    if pat.types.get(mv) == 'literal':   # a global NAME that begins with '_' (e.g. _STRAND_LEVELS): itself only
+                        if not (isinstance(sub, ast.Name) and sub.id == mv):
+                            ok = False
+                            break
+                        subst[mv] = ''
+                        continue
                     if pat.types.get(mv) == '*':         # any expression, not translated (its meaning is the template's)
                         subst[mv] = ''
                         continue
@@ -499,6 +505,19 @@ class FnTranslator:
                 b = self.fresh('m')
                 return g + [('opt', b, 'py_max_map (fun %s => %s) %s' % (x, ge_t, t), 'ValueError')], b, 'Z'
             refuse('call %s' % ast.unparse(n.func), n)
+        if isinstance(n, ast.Tuple) and n.elts and self.cfg.get('tuple_wrap'):
+            # (e1, .., en) of mixed types -> a list of tagged values; config tuple_wrap = {'elem': {type: template}, 'ty': type}
+            tw = self.cfg['tuple_wrap']
+            parts, guards = [], []
+            for i, e in enumerate(n.elts):
+                g, t, ty = self.tr(e, env)
+                if i > 0:
+                    self.pure(g, e)
+                if t is None or ty not in tw['elem']:
+                    refuse('tuple element of type %s: %s' % (ty, ast.unparse(e)), e)
+                guards += g
+                parts.append(tw['elem'][ty].format(t))
+            return guards, '[%s]' % '; '.join(parts), tw['ty']
         if isinstance(n, ast.List) and not n.elts:
             refuse('empty list literal without a declared type', n)
         refuse('expression %s' % type(n).__name__, n)
@@ -1352,6 +1371,12 @@ def translate_target(repo, cfg):
         fs = find_function(tree, cfg.get('cls'), cfg['func'])
         if len(fs) != 1:
             raise Refuse('function %s.%s found %d times' % (cfg.get('cls'), cfg['func'], len(fs)))
+        for cname, ctext in cfg.get('module_consts', {}).items():
+            # a module-level constant the patterns give a meaning to: its text is pinned (fail closed)
+            got = [ast.unparse(st.value) for st in tree.body if isinstance(st, ast.Assign) and len(st.targets) == 1
+                   and isinstance(st.targets[0], ast.Name) and st.targets[0].id == cname]
+            if got != [ctext]:
+                raise Refuse('module constant %s is %s, the config pins %s' % (cname, got, ctext))
         body = FnTranslator(cfg, fs[0]).translate()
         head = '(* %s %s of %s, lines %d-%d *)\nDefinition %s_untranslated : bool := false.\n' % (
             cfg.get('cls') or 'function', cfg['func'], cfg['file'], fs[0].lineno, fs[0].end_lineno, cfg['coq_name'])
@@ -1374,6 +1399,10 @@ def coq_ok(coqdir, text):
     """does coqc accept the text?  None when it cannot be decided (models not built yet)"""
     need = [os.path.join(coqdir, 'Model', 'PyRt.vo'), os.path.join(coqdir, 'Model', 'Anno.vo'),
             os.path.join(coqdir, 'Model', 'Digest.vo')]
+    # the Model files the text itself imports must be built as well (a model added since the last build is not:
+    # the candidate cannot be judged yet, which is not a refusal)
+    for m in re.findall(r'\b(Model\.\w+)', text.split('Import ListNotations', 1)[0]):
+        need.append(os.path.join(coqdir, *m.split('.')) + '.vo')
     if not all(os.path.exists(p) for p in need) or shutil.which('coqc') is None:
         return None
     work = os.path.join(os.path.dirname(coqdir), '.work')      # git-ignored scratch area of the framework
